@@ -1231,8 +1231,8 @@ def gen_skeletons(ctx):
         for p in pos:
             for sub in SK_SUB:
                 deep.append(_number(top[:p] + sub + top[p + 1:]))
-    if ctx.quick:
-        deep = random.Random(ctx.seed).sample(deep, 20)
+    # each state re-runs the machine on its prefix: ~400 states/skeleton; sized for < 60 s (quick) on an idle machine
+    deep = random.Random(ctx.seed).sample(deep, ctx.pick(20, 350))
     _, env = make_env(OPTS0)
     env0 = final_bindings(env)
     sk = []
